@@ -102,3 +102,17 @@ Example C11_nonvacuous :
             c = Imp (App (EVar 3) (Sym 0)) (Ex 2 (App (App (EVar 3) (Sym 0)) (EVar 2))) /\
             efree 3 c = true /\ efree 1 c = false.
 Proof. eexists. repeat split. Qed.
+
+(** ** the theorems hold of apply_esubst / apply_ssubst as they are written in the CURRENT
+       rust/src/lib.rs: Gen/SubstFns.v is regenerated from the source on every run
+       (translators/rust_subst.py) and proved equal to the model *)
+From Pi2 Require Import Gen.SubstFns ML.GenAgree.
+Theorem C11_substitution_translation_validated :
+  (forall p x plug, gen_apply_esubst p x plug = apply_esubst gs p x plug) /\
+  (forall p X plug, gen_apply_ssubst p X plug = apply_ssubst gs p X plug).
+Proof. exact (conj gen_apply_esubst_eq gen_apply_ssubst_eq). Qed.
+Print Assumptions C11_substitution_translation_validated.
+Corollary C11_source_esubst_textbook : forall a x r c, concrete a = true -> gen_apply_esubst a x r = Some c -> c = esubst_ref a x r.
+Proof. intros a x r c. rewrite gen_apply_esubst_eq. apply C11_esubst_textbook. Qed.
+Corollary C11_source_ssubst_textbook : forall a X r c, concrete a = true -> gen_apply_ssubst a X r = Some c -> c = ssubst_ref a X r.
+Proof. intros a X r c. rewrite gen_apply_ssubst_eq. apply C11_ssubst_textbook. Qed.
